@@ -112,14 +112,22 @@ class C09(Machine):
             self._call(pb, c, o, piece, {"padding": False}, "cont", n, sess, extra_pull=rng.random() < 0.5)
             prior += 8 * len(piece)
         ln = rng.choice(final_len_classes(scheme, prm) + [rng.randrange(0, 3 * nB)])
-        if scheme == "nopadding" and False:
-            pass
         piece = rbytes(rng, ln) if rng.random() < 0.8 else bytes(ln)
         kw = {}
         L = None
         if k == 0 and scheme in BIT_SCHEMES and ln > 0 and rng.random() < 0.5:
             L = 8 * ln - rng.randint(0, 7) if rng.random() < 0.7 else rng.randint(1, 8 * ln)
             kw["bitlen"] = L
+        prevf = sess.get("_lastfinal")
+        if prevf is not None and rng.random() < 0.4:
+            # the same last piece as the previous message of this object, under another total length
+            piece, L0 = prevf
+            ln = len(piece)
+            kw = {}
+            L = None
+            if k == 0 and L0 is not None:
+                L, kw = L0, {"bitlen": L0}
+        sess["_lastfinal"] = (piece, L if k == 0 else None)
         if rng.random() < 0.5:
             kw["padding"] = True
         blocks, _, _ = final_layout(scheme, prm, prior, piece, L)
@@ -156,7 +164,7 @@ class C09(Machine):
             scheme, prm, rec = pick_scheme(rng)
         o = pb.obj(dict(rec))
         sess = {"obj": o, "scheme": scheme, "prm": prm, "calls": [], "c": c}
-        nmsg = rng.choice([1, 1, 2])
+        nmsg = rng.choice([1, 1, 2, 2, 3])
         for mi in range(nmsg):
             if mi > 0:
                 if rng.random() < 0.5:
@@ -179,6 +187,7 @@ class C09(Machine):
                 self._message(rng, pb, c, o, scheme, prm, sess)
         pb.plan["observe"] += [[o, "bitcnt"], [o, "padcnt"], [o, "padflag"]]
         sess.pop("_defer", None)
+        sess.pop("_lastfinal", None)
         return sess, (scheme, prm, rec)
 
     def gen(self, rng, idx, seed):
